@@ -18,9 +18,116 @@ pub struct Case {
     pub pg: PG,
     /// stop after k answers (0 = take all, up to the cap)
     pub stop_after: Vec<usize>,
+    /// SLG size limit (10 = default; smaller values make truncation-induced ambiguity frequent)
+    #[serde(default = "default_max")]
+    pub slg_max: usize,
+}
+
+fn default_max() -> usize {
+    10
 }
 
 const CAP: usize = 40;
+
+/// programs whose traits have several answers: ground facts for distinct types, generic impls that
+/// generate infinitely many answers, blanket and self-recursive blanket impls, deep where-clauses
+fn gen_enum_program(t: &mut Tape) -> Program {
+    let mut p = Program::default();
+    for name in ["A", "B", "C"] {
+        p.ctors.push(new_ctor(name, 0));
+    }
+    p.ctors.push(new_ctor("V", 1));
+    if t.chance(40) {
+        p.ctors.push(new_ctor("W", 1));
+    }
+    let nt = 2 + t.choose(2);
+    for (i, name) in TRAITS.iter().take(nt).enumerate() {
+        let extra = if i > 0 && t.chance(25) { 1 } else { 0 };
+        let mut tr = new_trait(name, extra, TraitKind::Inductive);
+        tr.non_enumerable = t.chance(8);
+        p.traits.push(tr);
+    }
+    let ground = |t: &mut Tape, p: &Program| -> Ty {
+        let c = t.choose(p.ctors.len());
+        if p.ctors[c].arity == 0 {
+            Ty::Adt(c, vec![])
+        } else {
+            Ty::Adt(c, vec![Ty::Adt(t.choose(3), vec![])])
+        }
+    };
+    let ni = 3 + t.choose(7);
+    for _ in 0..ni {
+        let tr = t.choose(nt);
+        let extra = p.traits[tr].extra;
+        let unary: Vec<usize> = (0..p.ctors.len()).filter(|c| p.ctors[*c].arity == 1).collect();
+        let v = unary[t.choose(unary.len())];
+        let other = |t: &mut Tape| -> usize { t.choose(nt) };
+        let (nparams, self_ty, wcs): (usize, Ty, Vec<TRef>) = match t.choose(10) {
+            0..=4 => (0, ground(t, &p), vec![]),
+            5 | 6 => {
+                let w = other(t);
+                (1, Ty::Adt(v, vec![Ty::Param(0)]), if p.traits[w].extra == 0 { vec![TRef { tr: w, args: vec![Ty::Param(0)] }] } else { vec![] })
+            }
+            7 => {
+                let w = other(t);
+                (1, Ty::Param(0), if p.traits[w].extra == 0 && w != tr { vec![TRef { tr: w, args: vec![Ty::Param(0)] }] } else { vec![TRef { tr: 0, args: vec![Ty::Adt(v, vec![Ty::Param(0)])] }] })
+            }
+            8 => {
+                let w = other(t);
+                let mut ws = vec![];
+                if p.traits[w].extra == 0 {
+                    ws.push(TRef { tr: w, args: vec![Ty::Param(0)] });
+                }
+                if extra == 0 {
+                    ws.push(TRef { tr, args: vec![Ty::Param(0)] });
+                }
+                (1, Ty::Param(0), ws)
+            }
+            _ => {
+                let w = other(t);
+                let deep = Ty::Adt(v, vec![Ty::Adt(v, vec![Ty::Param(0)])]);
+                (1, Ty::Param(0), if p.traits[w].extra == 0 { vec![TRef { tr: w, args: vec![deep] }] } else { vec![] })
+            }
+        };
+        let mut args = vec![self_ty];
+        for _ in 0..extra {
+            args.push(if nparams > 0 && t.chance(40) { Ty::Param(0) } else { ground(t, &p) });
+        }
+        // every parameter must occur in the header
+        let mut used = vec![];
+        args.iter().for_each(|a| a.collect_params(&mut used));
+        if nparams > 0 && used.is_empty() {
+            continue;
+        }
+        p.impls.push(ImplDef { nparams, head: TRef { tr, args }, wcs, positive: true, values: vec![], upstream: false });
+    }
+    p
+}
+
+fn gen_enum_goal(t: &mut Tape, p: &Program) -> Goal {
+    let nv = 1 + t.choose(2);
+    let vars: Vec<usize> = (0..nv).collect();
+    let x = |t: &mut Tape| Ty::QVar(t.choose(nv));
+    let atom = |t: &mut Tape| -> TRef {
+        let tr = t.choose(p.traits.len());
+        let self_ty = match t.choose(5) {
+            0 => Ty::Adt(3, vec![x(t)]),
+            _ => x(t),
+        };
+        let mut args = vec![self_ty];
+        for _ in 0..p.traits[tr].extra {
+            args.push(if t.chance(60) { x(t) } else { Ty::Adt(t.choose(3), vec![]) });
+        }
+        TRef { tr, args }
+    };
+    let mut body = vec![Lit::Holds(atom(t))];
+    match t.choose(6) {
+        0 => body.push(Lit::Holds(atom(t))),
+        1 => body.push(Lit::Not(Box::new(Lit::Holds(atom(t))))),
+        _ => {}
+    }
+    Goal { prefix: vec![Prefix::Exists(vars)], body }
+}
 
 impl Property for C03 {
     type Case = Case;
@@ -28,7 +135,7 @@ impl Property for C03 {
         "C03"
     }
     fn rule(&self) -> String {
-        "case = generated F-horn program (fact-rich, also recursive impls giving infinitely many answers) with 3 goals having 1-2 existential variables and a callback policy (take all up to 40 / stop after k); the stream [(answer_i, has_next_i)] of Solver::solve_multiple (SLG) is recorded. Oracle: no yielded Definite answer covers a non-solution of the reference model (sound); no two yielded answers are equal canonical values (no duplicate); if the enumeration ended by itself with only Definite answers, every reference solution in the bounded universe is an instance of a yielded answer (complete); has_next=false is followed by no further callback and `true` return, has_next=true is followed by another callback when we continue (flag). Non-trivial = stream with >=2 answers or a stop-after-k policy with k < #answers; distinct by hash of (program, goal, policy).".into()
+        "case = generated F-horn program (fact-rich, also recursive impls giving infinitely many answers) with 3 goals having 1-2 existential variables and a callback policy (take all up to 40 / stop after k); the stream [(answer_i, has_next_i)] of Solver::solve_multiple (SLG at max_size 10, 5, 4 or 3 — small limits make truncation-induced ambiguous answers frequent) is recorded. Oracle: no yielded Definite answer covers a non-solution of the reference model (sound); no two yielded answers are equal canonical values (no duplicate); if the enumeration ended by itself with only Definite answers, every reference solution in the bounded universe is an instance of a yielded answer (complete); has_next=false is followed by no further callback and `true` return, has_next=true is followed by another callback when we continue (flag). Non-trivial = stream with >=2 answers or a stop-after-k policy with k < #answers; distinct by hash of (program, goal, policy).".into()
     }
     fn assumptions(&self) -> Vec<String> {
         vec!["reference semantics as in C01; the harness stops at the first Floundered item (a floundered table repeats it by construction)".into(), "completeness is only judged inside the bounded Herbrand universe (depth 2)".into()]
@@ -43,15 +150,24 @@ impl Property for C03 {
         if t.chance(25) {
             cfg = GenCfg { fact_bias: 45, ..GenCfg::horn_auto() };
         }
-        let program = gen_program(t, &cfg);
-        let gcfg = GoalCfg { force_exists: true, not: true, ..GoalCfg::full() };
-        let goals: Vec<Goal> = (0..3).map(|_| gen_goal(t, &program, &gcfg)).collect();
+        let (program, goals) = if t.chance(65) {
+            let program = gen_enum_program(t);
+            let goals: Vec<Goal> = (0..3).map(|_| gen_enum_goal(t, &program)).collect();
+            (program, goals)
+        } else {
+            let program = gen_program(t, &cfg);
+            let gcfg = GoalCfg { force_exists: true, not: true, ..GoalCfg::full() };
+            let goals: Vec<Goal> = (0..3).map(|_| gen_goal(t, &program, &gcfg)).collect();
+            (program, goals)
+        };
         let stop_after = (0..3).map(|_| if t.chance(30) { 1 + t.choose(3) } else { 0 }).collect();
-        Case { pg: PG { program, goals }, stop_after }
+        let slg_max = [10, 10, 5, 4, 3][t.choose(5)];
+        Case { pg: PG { program, goals }, stop_after, slg_max }
     }
     fn describe(&self, c: &Case) -> Value {
         let mut v = c.pg.describe();
         v["stop_after"] = json!(c.stop_after);
+        v["slg_max_size"] = json!(c.slg_max);
         v
     }
     fn shrink(&self, c: &Case) -> Vec<Case> {
@@ -66,7 +182,7 @@ impl Property for C03 {
         }
         for p in shrink_program(&c.pg.program) {
             if c.pg.goals.iter().all(|g| goal_traits_ok(g, p.traits.len())) {
-                out.push(Case { pg: PG { program: p, goals: c.pg.goals.clone() }, stop_after: c.stop_after.clone() });
+                out.push(Case { pg: PG { program: p, goals: c.pg.goals.clone() }, stop_after: c.stop_after.clone(), slg_max: c.slg_max });
             }
         }
         for (i, g) in c.pg.goals.iter().enumerate() {
@@ -98,7 +214,7 @@ impl Property for C03 {
                 out.evals += 1;
                 let mut stopped_by_us = false;
                 let (run, work) = guarded(DEFAULT_BUDGET * 4, || {
-                    let mut solver = Sv::Slg.choice().into_solver();
+                    let mut solver = chalk_integration::SolverChoice::SLG { max_size: case.slg_max, expected_answers: None }.into_solver();
                     let mut n = 0;
                     solver.solve_multiple(&*low.program, &lg.peeled.goal, &mut |res, has_next| {
                         n += 1;
